@@ -32,6 +32,8 @@ const (
 type cell struct {
 	name string
 	mode int
+	// monotone: an int64 cell whose value never decreases (the logical clock)
+	monotone bool
 
 	mu   sync.Mutex
 	val  interface{}
@@ -85,6 +87,14 @@ func (c *cell) load() interface{} {
 func (c *cell) write(set bool, v interface{}, logged func()) {
 	c.mu.Lock()
 	if set {
+		// The logical clock only moves forward, whatever the order in which
+		// the scenario's absolute write operations happen to be applied
+		// (injected and mutation writes are not applied in generation order).
+		if c.monotone {
+			if old, ok := c.val.(int64); ok && v.(int64) < old {
+				v = old
+			}
+		}
 		c.val = v
 	}
 	var olds []*reactive.Resource
@@ -286,7 +296,7 @@ func NewWorld(log *Log, init map[string]interface{}, modes map[string]int, defMo
 		if !ok {
 			m = defMode
 		}
-		w.cells[name] = &cell{name: name, mode: m, val: v, live: map[*reactive.Resource]struct{}{}}
+		w.cells[name] = &cell{name: name, mode: m, val: v, live: map[*reactive.Resource]struct{}{}, monotone: name == "clock"}
 		w.names = append(w.names, name)
 	}
 	sort.Strings(w.names)
@@ -627,6 +637,10 @@ func (w *World) buildSchema() *graphql.Schema {
 			return l / ClockEpoch
 		}
 		w.Log.Add(Event{Kind: EvResolve, Tag: v.tag, Cell: "clock"})
+		// (l is read before the registration on purpose - that is the
+		// judge-then-register pattern; it is sound because the clock cell is
+		// monotone: whatever happens in between either stays inside the epoch of
+		// l or is at/after the deadline and is caught by the check below.)
 		deadline := (l/ClockEpoch + 1) * ClockEpoch
 		w.gateAt(ctx, v.tag, "clock", 0) // the harness may advance the clock here
 		c.register(ctx)                  // logical timer for the deadline
